@@ -64,3 +64,18 @@ Definition ofbool (b : bool) : val := VN (if b then 1 else 0).
 Definition ofNs (l : list N) : val := VL (map VN l).
 (* option-returning model function: None = panic *)
 Definition ofopt {A} (f : A -> val) (o : option A) : val := match o with Some x => f x | None => VBot end.
+
+(* named operation tables *)
+Definition handler := list val -> option val.
+Fixpoint lookup (op : string) (tbl : list (string * handler)) : option handler :=
+  match tbl with
+  | [] => None
+  | (n, h) :: r => if String.eqb op n then Some h else lookup op r
+  end.
+Definition run_table (tbl : list (string * handler)) (op : string) (v : val) : option val :=
+  match v with
+  | VL args => match lookup op tbl with Some h => h args | None => None end
+  | _ => None
+  end.
+Definition vdir (v : val) : option bool := vbool v.
+Definition ofoptN (o : option N) : val := match o with Some x => VL [VN x] | None => VL [] end.
